@@ -480,7 +480,7 @@ func checkIDAfterEveryRead(r *Report, s *Sem, rule string) {
 					if ifi == nil {
 						return false
 					}
-					if call, _, isNil, ok := errTest(ifi, k == 0); ok && call == rd && !isNil {
+					if isNil, ok := errTestOf(ifi, k == 0, rd); ok && !isNil {
 						return true
 					}
 					for _, cd := range impliedConds(ifi, k == 0) {
